@@ -42,7 +42,7 @@ THEOREMS = [
 ]
 NOT_COVERED = ["that CPython's pickle/copy actually perform the copy of exactly the reachable object graph with fresh identities (the function copyForest of the model) is established by the correspondence run over every entry node and protocol, not by a theorem; given that, consistency, isomorphism, entry position, targets and completeness of the copy are proved (deepcopy_correct)"]
 PREDICATE_SPEC = True
-KINDS = ["node", "anynode", "user", "falsy", "eq", "symlink", "symlink"]
+KINDS = ["node", "anynode", "user", "falsy", "eq", "slotbase", "symlink", "symlink"]
 RULE = ("seeded random forests of 3-8 (thorough 12) objects of classes Node/AnyNode/user NodeMixin/SymlinkNode (links to earlier "
         "objects, also to links and across trees) or all LightNodeMixin, shaped by random parent/children assignments; every object "
         "as entry node; deepcopy and pickle protocols 0..HIGHEST (>=2 with __slots__). Distinct = distinct forest; non-trivial = at "
